@@ -109,6 +109,10 @@ fn run_case(rt: &tokio::runtime::Runtime, case: &Case) -> RunResult {
     // ghost: number of hand-outs per live entry (peer, id, hash)
     let mut handed: BTreeMap<(u64, u64, u64), u64> = BTreeMap::new();
 
+    // ghost, environment side: fetches that were requested and for which no BlockFetched /
+    // BlockFetchFailed / removal naming that very (peer, id, hash) has been delivered yet
+    let mut in_flight: BTreeSet<(u64, u64, u64)> = BTreeSet::new();
+
     for (k, op) in case.ops.iter().enumerate() {
         let mut sel_rows: Vec<Vec<u64>> = vec![];
         let outcome = catch_unwind(AssertUnwindSafe(|| match op {
@@ -169,6 +173,29 @@ fn run_case(rt: &tokio::runtime::Runtime, case: &Case) -> RunResult {
         }
 
         // ---- direct oracle on the implementation ----
+        match op {
+            Op::Fetched { hash } | Op::Remove { hash } => in_flight.retain(|x| x.2 != *hash),
+            Op::Failed { id, hash, peer } => {
+                in_flight.remove(&(*peer, *id, *hash));
+                // a failure report names one fetch: every other entry stays as it was
+                for (p, v) in &snap {
+                    let before = prev.iter().find(|(pp, _)| pp == p).map(|x| &x.1);
+                    for e in v {
+                        if (*p, e.0, e.1) == (*peer, *id, *hash) {
+                            continue;
+                        }
+                        let was = before.and_then(|b| b.iter().find(|o| o.0 == e.0 && o.1 == e.1));
+                        if was != Some(e) {
+                            res.oracle_failures.push(format!(
+                                "op {}: failure report for fetch ({},{}) of peer {} changed another entry: peer {} ({},{}) {:?} -> {:?}",
+                                k, id, hash, peer, p, e.0, e.1, was.map(|o| (o.2, o.3)), (e.2, e.3)
+                            ));
+                        }
+                    }
+                }
+            }
+            _ => {}
+        }
         for (p, v) in &snap {
             let inflight = v.iter().filter(|e| e.2 == 1).count() as u64;
             res.max_inflight = res.max_inflight.max(inflight);
@@ -225,6 +252,12 @@ fn run_case(rt: &tokio::runtime::Runtime, case: &Case) -> RunResult {
                             "op {}: peer {} handed out ({},{}) that was not in its queue",
                             k, p, id, hash
                         )),
+                    }
+                    if !in_flight.insert((*p, *id, *hash)) {
+                        res.oracle_failures.push(format!(
+                            "op {}: peer {} is asked for ({},{}) again while the earlier request is still in flight (no fetched / failed report for it was delivered)",
+                            k, p, id, hash
+                        ));
                     }
                     let c = handed.entry((*p, *id, *hash)).or_insert(0);
                     *c += 1;
@@ -283,6 +316,7 @@ fn run_case(rt: &tokio::runtime::Runtime, case: &Case) -> RunResult {
             .flat_map(|(p, v)| v.iter().map(move |e| (*p, e.0, e.1)))
             .collect();
         handed.retain(|k, _| live.contains(k));
+        in_flight.retain(|k| live.contains(k));
 
         let mut rows = sel_rows;
         rows.push(vec![777, total]);
